@@ -167,7 +167,15 @@ inline TopoReport CheckManifold(const manifold::Manifold& m) {
   if (m.NumProp() + 3 != size_t(g.numProp)) r.fail("topo:numprop-mismatch", "");
   if (m.IsEmpty() != (r.numTri == 0)) r.fail("topo:isempty-mismatch", "");
   if (!r.ok) return r;
-  // 32-bit export must satisfy the same predicate
+  // 32-bit export must satisfy the same predicate - unless a coordinate or
+  // property is beyond the range of float, where overflow to inf is inherent
+  for (double x : g.vertProperties)
+    if (std::abs(x) > 1e30) return r;  // (float tolerance = FLT_EPSILON * scale overflows a little earlier)
+  for (double x : g.halfedgeTangent)
+    if (std::abs(x) > 1e30) return r;
+  for (double x : g.runTransform)
+    if (std::abs(x) > 1e30) return r;
+  if (std::abs(g.tolerance) > 1e30) return r;
   manifold::MeshGL g32 = m.GetMeshGL();
   TopoReport r32 = CheckTopology(g32);
   if (!r32.ok) { r32.sig += "(32bit)"; return r32; }
